@@ -26,7 +26,7 @@ def run(ctx):
     evs = uidrv.ui_events(ctx, res)
     keys, bad = [], []
     for world in ("w1", "w2"):
-        part = [e for e in evs if e["ev"] in ("reset", "key", "wild") and e["world"] == world]
+        part = [e for e in evs if e["ev"] in ("reset", "key", "wild", "hookexit") and e["world"] == world]
         # session ids are per world: make them unique
         for e in part:
             if "sid" in e and not e.get("_renumbered"):
@@ -41,6 +41,10 @@ def run(ctx):
         if e["ev"] == "reset":
             cur = e["sid"]
             sess[cur] = {"start": e["start"], "keys": e["keys"], "steps": []}
+        elif e["ev"] == "hookexit":
+            e["k"] = "hookexit"
+            sess[cur]["steps"].append(e)
+            res.case([e["world"], sess[cur]["start"], [s["k"] for s in sess[cur]["steps"]]])
         elif e["ev"] == "key":
             sess[cur]["steps"].append(e)
             res.case([e["world"], sess[cur]["start"], [s["k"] for s in sess[cur]["steps"]]])
@@ -58,6 +62,7 @@ def run(ctx):
     res.extra["frames_seen"] = sum(1 for e in evs if e["ev"] == "out")
     res.assumptions = ["observations are taken at quiescence (no load in flight, no open connection, hook exited)",
                        "a non-digit key while selecting may cancel only or cancel and act; keys while opening act as in normal mode",
+                       "held sessions: hooks end only at the `hookexit` steps (all pending ones at once); backspace while opening only shortens the address shown",
                        "preload_amount = 2; failures are not told apart (all 'fail')"]
     for b in bad:
         e = keys[b["line"] - 1]
@@ -68,7 +73,7 @@ def run(ctx):
         else:
             s = sess[b["sid"]]
             done = [x["k"] for x in s["steps"]]
-            i = done.index(e["k"]) if e["k"] in done else 0
+            done = done[:[id(x) for x in s["steps"]].index(id(e)) + 1] if any(x is e for x in s["steps"]) else done
             sig = {"monitor": "T_UI", "why": b["why"], "key": e["k"], "wild": False}
             text = "start %s keys %s: after %r %s; observed %s %s" % (s["start"], done, e["k"], b["why"], e["obs"], (e.get("what") or "")[:200])
             replay = {"start": s["start"], "keys": done, "rejected": e}
